@@ -44,6 +44,10 @@ Streams:
              names)
   exotic     top level not a mapping, odd-but-typed values, unicode
   interp     random values against every sub-schema (interpreter vs jsonschema)
+  rawkey     YAML texts with ONE key that is not a string (1 / true / null / 1.5
+             / ON) at every key position of the small documents, and added to
+             every mapping: outside the model's document type, Python-side part
+             of the monitor only (never Internal; accepted => the text's steps)
   enums      every priority string of the schema (and others) through the real
              StepPriority.from_str and FluxInterface_0490.get_flux_urgency;
              numbers n/d in [0,1] through the numeric branch
@@ -168,6 +172,13 @@ class Obj(object):
 Flt = collections.namedtuple("Flt", "m e")       # m / 10**e
 
 
+class Raw(str):
+    """a mapping key written WITHOUT quotes (1, true, null, 1.5): YAML makes it
+    an int / bool / None / float key.  Outside the model's document type (keys
+    are strings there): only for the raw-text stream."""
+    __slots__ = ()
+
+
 def O(**kw):
     return Obj(list(kw.items()))
 
@@ -270,7 +281,8 @@ def to_yaml(d):
     if isinstance(d, list):
         return "[" + ", ".join(to_yaml(x) for x in d) + "]"
     if isinstance(d, Obj):
-        return "{" + ", ".join("%s: %s" % (y_str(k), to_yaml(v)) for k, v in d.kv) + "}"
+        return "{" + ", ".join("%s: %s" % (str(k) if isinstance(k, Raw) else y_str(k), to_yaml(v))
+                               for k, v in d.kv) + "}"
     raise TypeError(type(d))
 
 
@@ -1234,10 +1246,37 @@ def python_monitor(doc, obs):
     return True
 
 
+def raw_key_texts():
+    """YAML texts in which ONE mapping key is not a string: every key of the
+    small documents replaced by 1 / true / null / 1.5, and such a key added to
+    every mapping.  (YAML 1.1 also reads the plain names ON, NO, YES ... as
+    booleans: a variable called ON is the realistic instance.)"""
+    out = []
+    for base, tag in ((tiny_doc(), "tiny"), (small_full_doc(), "full")):
+        for path, node in nodes_of(base):
+            if path and path[-1][0] == "k":
+                for alt in ("1", "true", "null", "1.5", "ON"):
+                    d = copy.deepcopy(base)
+                    par = get_at(d, path[:-1])
+                    par.kv[path[-1][1]] = (Raw(alt), par.kv[path[-1][1]][1])
+                    out.append(("rawkey:%s:rename@%s" % (tag, path_text(path)), to_yaml(d)))
+            if isinstance(node, Obj):
+                for alt in ("1", "true", "null"):
+                    d = copy.deepcopy(base)
+                    get_at(d, path).kv.append((Raw(alt), "x"))
+                    out.append(("rawkey:%s:addkey@%s" % (tag, path_text(path)), to_yaml(d)))
+    return out
+
+
 def raw_text_case(ck, impl, tag, text):
     """a YAML text outside the model's document type: never an internal error,
     accepted => exactly the text's steps"""
-    obs, detail = impl.run(text, False)
+    try:
+        ld = impl.yaml.load(io.StringIO(text), impl.yaml.FullLoader)
+        hyg = stage_hygiene(ld)
+    except Exception:
+        hyg = False
+    obs, detail = impl.run(text, hyg)
     ck.count(("raw", text), nontrivial=True)
     ok = obs[0] != "I"
     if obs[0] == "A":
@@ -1463,6 +1502,10 @@ def run(ck):
             raw_text_case(ck, impl, t, j["yaml_text"])
         elif d is None:
             ck.mismatch("unreadable corpus file %s" % t, j)
+    raws = raw_key_texts()
+    for tg, text in raws:
+        raw_text_case(ck, impl, tg, text)
+    ck.cov["raw_text_cases_nonstring_keys"] = len(raws)
     ck.cov["rule"] = ("documents = corpus + repo samples + generated valid specifications (full range of "
                       "schema-admitted values per key) + every single-point mutation of a small document "
                       "(thorough: of a full-featured one in full, and of every small repo sample with 8 seeded pool values per node for the retype edit) + seeded structural and "
